@@ -77,9 +77,7 @@ def dec_item(it):
 
 def run_model(ctx, cases):
     """cases: list of (key, hp, text) → {key: dict}"""
-    def chunk(cs):
-        inp = "".join(f"{i} {hp} {FUEL} {(t.encode('latin1').hex() or '-')}\n" for i, (_, hp, t) in enumerate(cs))
-        out = ctx.pmodel("basic", inp, timeout=3000)
+    def parse(out, cs):
         res = {}
         for line in out:
             parts = line.split(" | ")
@@ -90,6 +88,20 @@ def run_model(ctx, cases):
                                          punch=[dec_item(x) for x in parts[1].split()], text=dec_item(parts[2]),
                                          save=None if parts[3].strip() == "none" else dec_item(parts[3].strip()))
         return res
+
+    def chunk(cs):
+        inp = "".join(f"{i} {hp} {FUEL} {(t.encode('latin1').hex() or '-')}\n" for i, (_, hp, t) in enumerate(cs))
+        try:
+            return parse(ctx.pmodel("basic", inp, timeout=900 if len(cs) > 1 else 90), cs)
+        except Exception:
+            if len(cs) == 1:
+                # the reference evaluator itself gave up on this program (memory / time): counted, not judged
+                ctx.cov["model_gave_up"] = ctx.cov.get("model_gave_up", 0) + 1
+                return {cs[0][0]: dict(status="fuel", kind="modelcrash", ub=False, warn=0, punch=[], text="", save=None)}
+            res = {}
+            for c in cs:
+                res.update(chunk([c]))
+            return res
     CH = max(1, min(200, len(cases) // vlib.NCPU + 1))
     out = {}
     with cf.ThreadPoolExecutor(vlib.NCPU) as ex:
